@@ -150,3 +150,21 @@ package writer
 //@   site call tsWip.cbuf.AppendUint64LittleEndian #1:
 //@     assert [header-lowts] arg1 == wipBlock.blockSummary.LowTs
 //@ end
+
+// ---- TLV column value decoder (C01): type tag and encoded length -------------
+// tlvLen is the length of the record that starts at rec[0]; the reader seeks
+// from record to record by it, so a wrong length makes values migrate.
+//@ spec isScalarTLV(t byte) bool = t == 0x01 || t == 0x02 || t == 0x03 || t == 0x04 || t == 0x05 || t == 0x06 || t == 0x07 || t == 0x08 || t == 0x09 || t == 0x10 || t == 0x11 || t == 0x13
+//@ spec tlvLen(rec []byte) uint16 = ite(rec[0] == 0x02, 3 + le16(rec[1:3]), ite(rec[0] == 0x01 || rec[0] == 0x03 || rec[0] == 0x07, uint16(2), ite(rec[0] == 0x04 || rec[0] == 0x08, uint16(3), ite(rec[0] == 0x05 || rec[0] == 0x09, uint16(5), ite(rec[0] == 0x13, uint16(1), uint16(9))))))
+//@ spec tlvDtype(t byte) SS_DTYPE = ite(t == 0x02, SS_DT_STRING, ite(t == 0x01, SS_DT_BOOL, ite(t == 0x07 || t == 0x08 || t == 0x09 || t == 0x10, SS_DT_SIGNED_NUM, ite(t == 0x03 || t == 0x04 || t == 0x05 || t == 0x06, SS_DT_UNSIGNED_NUM, ite(t == 0x11, SS_DT_FLOAT, SS_DT_BACKFILL)))))
+
+//@ func GetCvalFromRec
+//@   props C01
+//@   requires retVal != nil
+//@   requires implies(len(rec) > 0 && rec[0] == 0x02, len(rec) >= 3 && le16(rec[1:3]) <= 65532 && len(rec) >= 3 + int(le16(rec[1:3])))
+//@   requires implies(len(rec) > 0 && isScalarTLV(rec[0]) && rec[0] != 0x02, len(rec) >= int(tlvLen(rec)))
+//@   requires implies(len(rec) > 0 && (rec[0] == 0x14 || rec[0] == 0x15), len(rec) >= 3)
+//@   ensures [length] implies(len(rec) > 0 && old(isScalarTLV(rec[0])), result1 == nil && result0 == old(tlvLen(rec)))
+//@   ensures [dtype] implies(len(rec) > 0 && old(isScalarTLV(rec[0])), retVal.Dtype == old(tlvDtype(rec[0])))
+//@   ensures [empty] implies(len(rec) == 0, result1 != nil)
+//@ end
